@@ -412,10 +412,19 @@ func deleteOptField(s engine.Sink, name string, check func(v ssa.Value) (bool, s
 	if al == nil {
 		return false, "DeleteOptions is not a local composite literal (" + E(opt) + "): cannot establish its fields"
 	}
-	v := engine.FieldStore(al, name)
-	if v == nil {
+	sts := engine.FieldStores(al, name)
+	if len(sts) == 0 {
 		return false, "DeleteOptions." + name + " is not set"
 	}
+	if len(sts) > 1 {
+		return false, "DeleteOptions." + name + " has several definitions"
+	}
+	// the field must be set on every path to the call
+	in := s.Instr.(ssa.Instruction)
+	if w := bypass(s.Fn, in, func(x ssa.Instruction) bool { return x == ssa.Instruction(sts[0]) }); w != nil {
+		return false, "DeleteOptions." + name + " is not set on every path to the Delete; " + pathWhy(w)
+	}
+	v := sts[0].Val
 	return check(v)
 }
 
